@@ -519,7 +519,7 @@ def wl_large(ctx, rng, case):
         if kind in ("cuckoo", "counting_cuckoo"):
             cls = P.CountingCuckooFilter if kind == "counting_cuckoo" else P.CuckooFilter
             cap = rng.choice([10000, 12000, 16385, 20000, 33000])
-            bsz = rng.choice([2, 4, 4, 6])
+            bsz = rng.choice([1, 2, 3, 4, 4, 5, 6, 7])
             s = cls(capacity=cap, bucket_size=bsz, max_swaps=50)
             for kk in keys:
                 s.add(kk)
@@ -552,9 +552,13 @@ def wl_large(ctx, rng, case):
         elif kind in ("bloom", "counting_bloom"):
             cls = P.CountingBloomFilter if kind == "counting_bloom" else P.BloomFilter
             est, rate = rng.choice([(5000, 0.01), (20000, 0.05), (100000, 0.01), (3000, 1e-6)]) if kind == "bloom" else rng.choice([(2000, 0.01), (5000, 0.05)])
+            if kind == "bloom" and rng.random() < 0.3:
+                est, rate = rng.choice([(300000, 0.01), (70000, 0.01)])
             s = cls(est, rate)
             for kk in keys:
                 s.add(kk)
+            if kind == "bloom":
+                bl.dense_fill(rng, [[s]], s.number_bits, s.number_hashes, share=0.8)  # nearly every byte of the large array carries a bit
             case.desc.update(est=est, rate=rate, bits=s.number_bits)
             data = bytes(s)
             hx = s.export_hex()
